@@ -406,7 +406,8 @@ impl RefParser {
                             i += 4;
                             c
                         }
-                        _ => return None,
+                        // a lone 38/48 (no 2/5 selector after it) is an unknown parameter
+                        _ => continue,
                     };
                     out.push(if code == 38 { SetForegroundColor(color) } else { SetBackgroundColor(color) });
                 }
